@@ -109,7 +109,16 @@ def _mk_event(op):
     return d
 
 
+_GARBAGE = []
+
+
 def _begin_run(sc, env, budget):
+    del _GARBAGE[:]
+    n = int(sc.get("heap_garbage") or 0)
+    if n:
+        # perturb the heap layout so address-based hashes differ between executions
+        _GARBAGE.extend(bytearray((i * 37) % 211 + 1) for i in range(n))
+        del _GARBAGE[::2]
     seams.set_hash_mode(sc.get("hash_mode", "salted"))
     seams.set_salt(sc.get("salt", 0))
     seams.UUID.reset()
